@@ -73,3 +73,38 @@ pub fn miri(run: &Run, part: &str, seeds: &[u64], many_seeds: Option<u32>) {
         }
     }
 }
+
+/// libFuzzer lane for C01/C14: coverage-guided exploration of load + walker (built with ASan by cargo-fuzz).
+/// Returns the directory with artifacts (crash-*, timeout-*, oom-*) to be re-judged by the supervisor's workers.
+pub fn fuzz(run: &Run, secs: u64, seeds: &[(String, Vec<u8>)]) -> Option<String> {
+    let dir = harness_dir();
+    let corpus = format!("{}/fuzz/corpus/walk", dir);
+    let artifacts = format!("{}/fuzz/artifacts/walk", dir);
+    let _ = std::fs::remove_dir_all(&artifacts);
+    let _ = std::fs::create_dir_all(&corpus);
+    let _ = std::fs::create_dir_all(&artifacts);
+    for (name, bytes) in seeds { let _ = std::fs::write(format!("{}/seed-{:016x}-{}", corpus, crate::rng::fnv(bytes), name.replace('/', "_").chars().take(40).collect::<String>()), bytes); }
+    let dict = format!("{}/fuzz/pdf.dict", dir);
+    let _ = std::fs::write(&dict, ["obj", "endobj", "stream", "endstream", "xref", "trailer", "startxref", "/Type", "/Pages", "/Kids", "/Count", "/Parent", "/Length", "/Filter", "/FlateDecode", "/DecodeParms", "/Predictor", "/Columns",
+        "/Root", "/Size", "/Prev", "/W", "/Index", "/ObjStm", "/XRef", "/N", "/First", "/Font", "/Widths", "/ToUnicode", "/Encrypt", "/Resources", "/XObject", "/Contents", "BI", "ID", "EI", "BT", "ET", "Tj", "0 R", "<<", ">>", "%%EOF"]
+        .iter().map(|t| format!("\"{}\"\n", t)).collect::<String>());
+    let t0 = std::time::Instant::now();
+    let out = Command::new("cargo").current_dir(&dir).args(["+nightly", "fuzz", "run", "walk", "--"])
+        .args([&format!("-max_total_time={}", secs), "-fork=16", "-timeout=10", "-rss_limit_mb=4096", "-len_control=0", "-max_len=300000", "-ignore_crashes=1", "-ignore_timeouts=1", "-ignore_ooms=1", &format!("-dict={}", dict), &format!("-artifact_prefix={}/", artifacts)])
+        .env("CARGO_NET_OFFLINE", "true").output();
+    match out {
+        Err(e) => { run.lane(json!({"lane": "libfuzzer", "ran": false, "error": e.to_string()})); None }
+        Ok(o) => {
+            let stderr = String::from_utf8_lossy(&o.stderr).to_string();
+            let n_art = std::fs::read_dir(&artifacts).map(|d| d.count()).unwrap_or(0);
+            let n_corpus = std::fs::read_dir(&corpus).map(|d| d.count()).unwrap_or(0);
+            let execs = stderr.lines().rev().find_map(|l| l.strip_prefix("#").and_then(|r| r.split(':').next()).and_then(|n| n.trim().parse::<u64>().ok())).unwrap_or(0);
+            let ran = stderr.contains("INFO:") || execs > 0;
+            run.lane(json!({"lane": "libfuzzer", "ran": ran, "seconds": t0.elapsed().as_secs(), "last_reported_execs": execs, "corpus_files": n_corpus, "artifacts": n_art,
+                "tail": if ran { vec![] } else { stderr.lines().rev().take(8).map(|s| s.to_string()).collect::<Vec<_>>() }}));
+            if !ran { println!("note: libfuzzer lane did not run (inconclusive for that lane)"); return None; }
+            run.add("libfuzzer_execs_reported", execs); run.add("libfuzzer_corpus_files", n_corpus as u64); run.add("libfuzzer_artifacts", n_art as u64);
+            Some(artifacts)
+        }
+    }
+}
